@@ -147,40 +147,40 @@ theorem pkExtend_append (st : PState) (L M : List (Entry × Nat)) :
 
 /-- The four ways `packWalkFn` writes an entry, with the number of bytes it adds to `Meta.Size`.
 `path` is the on-disk path the callback was called with. -/
-inductive PackEmit (fs : FS) (cwd : Str) (o : PackOpts) (root : Str) : Entry → Nat → Prop
+inductive PackEmit (G : Str → Prop) (fs : FS) (cwd : Str) (o : PackOpts) (root : Str) : Entry → Nat → Prop
   | dir (sub : Str) (perm : Nat) (mt : Int) :
-      PackEmit fs cwd o root
+      PackEmit G fs cwd o root
         { name := sub ++ ['/'], typ := tDir, mode := perm &&& 0o777, mtime := roundSec mt, link := [], body := [] } 0
   | file (path sub : Str) (perm : Nat) (mt : Int) (content : Str)
-      (hl : fs.lstat path = .ok (.file perm mt content)) :
-      PackEmit fs cwd o root
+      (hg : G path) (hl : fs.lstat path = .ok (.file perm mt content)) :
+      PackEmit G fs cwd o root
         { name := sub, typ := tReg, mode := perm &&& 0o777, mtime := roundSec mt, link := [], body := content }
         (utf8Len content)
-  | symlink (path sub target : Str) (hl : fs.lstat path = .ok (.link target))
+  | symlink (path sub target : Str) (hg : G path) (hl : fs.lstat path = .ok (.link target))
       (hv : validSymlink cwd o.allow root path target = true) :
-      PackEmit fs cwd o root
+      PackEmit G fs cwd o root
         { name := sub, typ := tSymlink, mode := 0o777, mtime := 0, link := target, body := [] } 0
   | deref (path sub target absTarget : Str) (perm : Nat) (mt : Int) (content body : Str)
-      (hd : o.dereference = true)
+      (hd : o.dereference = true) (hg : G path)
       (hl : fs.lstat path = .ok (.link target))
       (hv : validSymlink cwd o.allow root path target = false)
       (ht : fs.lstat absTarget = .ok (.file perm mt content))
       (hb : fs.readFile path = .ok body)
       (hlen : utf8Len body = utf8Len content) :
-      PackEmit fs cwd o root
+      PackEmit G fs cwd o root
         { name := sub, typ := tReg, mode := perm &&& 0o777, mtime := roundSec mt, link := [], body := body }
         (utf8Len body)
 
 /-- "the final state is the initial state plus a list of emissions" -/
-def PackEmits (fs : FS) (cwd : Str) (o : PackOpts) (root : Str) (st st' : PState) : Prop :=
-  ∃ L : List (Entry × Nat), (∀ x ∈ L, PackEmit fs cwd o root x.1 x.2) ∧ st' = pkExtend st L
+def PackEmits (G : Str → Prop) (fs : FS) (cwd : Str) (o : PackOpts) (root : Str) (st st' : PState) : Prop :=
+  ∃ L : List (Entry × Nat), (∀ x ∈ L, PackEmit G fs cwd o root x.1 x.2) ∧ st' = pkExtend st L
 
-theorem PackEmits.refl {fs : FS} {cwd : Str} {o : PackOpts} {root : Str} (st : PState) :
-    PackEmits fs cwd o root st st :=
+theorem PackEmits.refl {G : Str → Prop} {fs : FS} {cwd : Str} {o : PackOpts} {root : Str} (st : PState) :
+    PackEmits G fs cwd o root st st :=
   ⟨[], by simp, (pkExtend_nil st).symm⟩
 
-theorem PackEmits.trans {fs : FS} {cwd : Str} {o : PackOpts} {root : Str} {a b c : PState}
-    (h1 : PackEmits fs cwd o root a b) (h2 : PackEmits fs cwd o root b c) : PackEmits fs cwd o root a c := by
+theorem PackEmits.trans {G : Str → Prop} {fs : FS} {cwd : Str} {o : PackOpts} {root : Str} {a b c : PState}
+    (h1 : PackEmits G fs cwd o root a b) (h2 : PackEmits G fs cwd o root b c) : PackEmits G fs cwd o root a c := by
   obtain ⟨L, hL, e1⟩ := h1
   obtain ⟨M, hM, e2⟩ := h2
   refine ⟨L ++ M, ?_, ?_⟩
@@ -190,18 +190,28 @@ theorem PackEmits.trans {fs : FS} {cwd : Str} {o : PackOpts} {root : Str} {a b c
     · exact hM x h
   · rw [e2, e1, pkExtend_append]
 
-theorem PackEmits.one {fs : FS} {cwd : Str} {o : PackOpts} {root : Str} (st : PState) {e : Entry} {k : Nat}
-    (h : PackEmit fs cwd o root e k) : PackEmits fs cwd o root st (pkPush st e k) :=
+theorem PackEmits.one {G : Str → Prop} {fs : FS} {cwd : Str} {o : PackOpts} {root : Str} (st : PState) {e : Entry} {k : Nat}
+    (h : PackEmit G fs cwd o root e k) : PackEmits G fs cwd o root st (pkPush st e k) :=
   ⟨[(e, k)], by simpa using h, (pkExtend_one st e k).symm⟩
 
 /-! ## the walk only emits -/
 
-theorem pk_visit_emits (fs : FS) (cwd : Str) (o : PackOpts) (rules : Option (List Rule)) (root : Str) (fuel : Nat)
-    (ihN : ∀ src dst path node st, fs.lstat path = .ok node →
-      PackEmits fs cwd o root st (walkNode fs cwd o rules root src dst fuel path node st).1) :
-    ∀ src dst path node st, fs.lstat path = .ok node →
-      PackEmits fs cwd o root st (visit fs cwd o rules root src dst (fuel + 1) path node st).1 := by
-  intro src dst path node st hl
+/-- what the path predicate `G` must satisfy to be carried along the walk: the children of a
+directory satisfying it do, and so does whatever a dereferenced link resolves to -/
+structure PackPathInv (G : Str → Prop) (fs : FS) (o : PackOpts) : Prop where
+  child : ∀ path p n, G path → fs.resolvePath path true = .ok p → n ∈ fs.readdir p → G (pathJoin path n)
+  deref : o.dereference = true → ∀ t, G t
+
+theorem packPathInv_true (fs : FS) (o : PackOpts) : PackPathInv (fun _ => True) fs o :=
+  ⟨fun _ _ _ _ _ _ => trivial, fun _ _ => trivial⟩
+
+theorem pk_visit_emits (G : Str → Prop) (fs : FS) (cwd : Str) (o : PackOpts) (rules : Option (List Rule))
+    (root : Str) (hG : PackPathInv G fs o) (fuel : Nat)
+    (ihN : ∀ src dst path node st, G path → fs.lstat path = .ok node →
+      PackEmits G fs cwd o root st (walkNode fs cwd o rules root src dst fuel path node st).1) :
+    ∀ src dst path node st, G path → fs.lstat path = .ok node →
+      PackEmits G fs cwd o root st (visit fs cwd o rules root src dst (fuel + 1) path node st).1 := by
+  intro src dst path node st hg hl
   cases node with
   | special =>
     rw [visit]
@@ -223,16 +233,22 @@ theorem pk_visit_emits (fs : FS) (cwd : Str) (o : PackOpts) (rules : Option (Lis
       rename_i body hb
       rw [pk_readFile_of_lstat_file hl] at hb
       cases hb
-      exact .one st (.file path _ _ _ _ hl)
+      exact .one st (.file path _ _ _ _ hg hl)
     · intro _ _ h; cases h
   | link target =>
     rw [visit]
     · simp only [↓reduceIte, Bool.false_eq_true]
       repeat' split
       all_goals first | exact .refl _ | skip
-      · exact .one st (.symlink path _ _ hl ‹validSymlink cwd o.allow root path target = true›)
-      · exact ihN _ _ _ _ _ ‹fs.lstat _ = Except.ok _›
-      · exact ihN _ _ _ _ _ ‹fs.lstat _ = Except.ok _›
+      · exact .one st (.symlink path _ _ hg hl ‹validSymlink cwd o.allow root path target = true›)
+      · have hd' : o.dereference = true := by
+          have : ¬ (!o.dereference) = true := by assumption
+          simpa using this
+        exact ihN _ _ _ _ _ (hG.deref hd' _) ‹fs.lstat _ = Except.ok _›
+      · have hd' : o.dereference = true := by
+          have : ¬ (!o.dereference) = true := by assumption
+          simpa using this
+        exact ihN _ _ _ _ _ (hG.deref hd' _) ‹fs.lstat _ = Except.ok _›
       · have hd' : o.dereference = true := by
           have : ¬ (!o.dereference) = true := by assumption
           simpa using this
@@ -242,29 +258,33 @@ theorem pk_visit_emits (fs : FS) (cwd : Str) (o : PackOpts) (rules : Option (Lis
         rename_i at' pm mt' ct hr _ body hb hne
         have hlen : utf8Len body = utf8Len ct := by
           simpa using hne
-        exact .one st (.deref path _ target at' pm mt' ct body hd' hl hv'
+        exact .one st (.deref path _ target at' pm mt' ct body hd' hg hl hv'
           (pk_resolveExternalLink_ok fs _ _ _ _ hr).1 hb hlen)
     · intro _ _ h; cases h
-theorem pk_walk_emits (fs : FS) (cwd : Str) (o : PackOpts) (rules : Option (List Rule)) (root : Str) :
+
+/-- The simultaneous induction on fuel: each walk function returns its input state extended by
+emissions, all of them at paths satisfying `G`. -/
+theorem pk_walk_emitsG (G : Str → Prop) (fs : FS) (cwd : Str) (o : PackOpts) (rules : Option (List Rule))
+    (root : Str) (hG : PackPathInv G fs o) :
     ∀ fuel : Nat,
-      (∀ src dst path node st, fs.lstat path = .ok node →
-        PackEmits fs cwd o root st (walkNode fs cwd o rules root src dst fuel path node st).1) ∧
-      (∀ src dst path names st,
-        PackEmits fs cwd o root st (walkChildren fs cwd o rules root src dst fuel path names st).1) ∧
-      (∀ src dst path node st, fs.lstat path = .ok node →
-        PackEmits fs cwd o root st (visit fs cwd o rules root src dst fuel path node st).1) := by
+      (∀ src dst path node st, G path → fs.lstat path = .ok node →
+        PackEmits G fs cwd o root st (walkNode fs cwd o rules root src dst fuel path node st).1) ∧
+      (∀ src dst path names st, (∀ n ∈ names, G (pathJoin path n)) →
+        PackEmits G fs cwd o root st (walkChildren fs cwd o rules root src dst fuel path names st).1) ∧
+      (∀ src dst path node st, G path → fs.lstat path = .ok node →
+        PackEmits G fs cwd o root st (visit fs cwd o rules root src dst fuel path node st).1) := by
   intro fuel
   induction fuel with
   | zero =>
     refine ⟨?_, ?_, ?_⟩
-    · intro src dst path node st _; rw [walkNode]; exact .refl _
-    · intro src dst path names st; rw [walkChildren]; exact .refl _
-    · intro src dst path node st _; rw [visit]; exact .refl _
+    · intro src dst path node st _ _; rw [walkNode]; exact .refl _
+    · intro src dst path names st _; rw [walkChildren]; exact .refl _
+    · intro src dst path node st _ _; rw [visit]; exact .refl _
   | succ fuel ih =>
     obtain ⟨ihN, ihC, ihV⟩ := ih
     refine ⟨?_, ?_, ?_⟩
-    · intro src dst path node st hl
-      have hv := ihV src dst path _ st hl
+    · intro src dst path node st hg hl
+      have hv := ihV src dst path _ st hg hl
       cases node with
       | dir perm mt =>
         rw [walkNode]
@@ -272,28 +292,46 @@ theorem pk_walk_emits (fs : FS) (cwd : Str) (o : PackOpts) (rules : Option (List
         split
         · split
           · exact hv
-          · exact hv.trans (ihC _ _ _ _ _)
+          · rename_i p hp
+            exact hv.trans (ihC _ _ _ _ _ (fun n hn => hG.child path p n hg hp hn))
         · exact hv
       | file perm mt c => rw [walkNode]; exact hv; intro _ _ h; cases h
       | link t => rw [walkNode]; exact hv; intro _ _ h; cases h
       | special => rw [walkNode]; exact hv; intro _ _ h; cases h
-    · intro src dst path names st
+    · intro src dst path names st hnames
       cases names with
       | nil => rw [walkChildren]; exact .refl _
       | cons name rest =>
+        have hrest : ∀ n ∈ rest, G (pathJoin path n) := fun n hn => hnames n (List.mem_cons_of_mem _ hn)
         rw [walkChildren]
         simp only
         split
         · exact .refl _
         · rename_i child hc
-          have hn := ihN src dst _ _ st hc
+          have hn := ihN src dst _ _ st (hnames name (by simp)) hc
           split
-          · exact hn.trans (ihC _ _ _ _ _)
+          · exact hn.trans (ihC _ _ _ _ _ hrest)
           · split
-            · exact hn.trans (ihC _ _ _ _ _)
+            · exact hn.trans (ihC _ _ _ _ _ hrest)
             · exact hn
           · exact hn
-    · exact pk_visit_emits fs cwd o rules root fuel ihN
+    · exact pk_visit_emits G fs cwd o rules root hG fuel ihN
+
+/-- `pk_walk_emitsG` without a path predicate -/
+theorem pk_walk_emits (fs : FS) (cwd : Str) (o : PackOpts) (rules : Option (List Rule)) (root : Str) :
+    ∀ fuel : Nat,
+      (∀ src dst path node st, fs.lstat path = .ok node →
+        PackEmits (fun _ => True) fs cwd o root st (walkNode fs cwd o rules root src dst fuel path node st).1) ∧
+      (∀ src dst path names st,
+        PackEmits (fun _ => True) fs cwd o root st (walkChildren fs cwd o rules root src dst fuel path names st).1) ∧
+      (∀ src dst path node st, fs.lstat path = .ok node →
+        PackEmits (fun _ => True) fs cwd o root st (visit fs cwd o rules root src dst fuel path node st).1) := by
+  intro fuel
+  have h := pk_walk_emitsG (fun _ => True) fs cwd o rules root (packPathInv_true fs o) fuel
+  exact ⟨fun src dst path node st hl => h.1 src dst path node st trivial hl,
+    fun src dst path names st => h.2.1 src dst path names st (fun _ _ => trivial),
+    fun src dst path node st hl => h.2.2 src dst path node st trivial hl⟩
+
 /-! ## `Pack` itself -/
 
 /-- the empty state `Pack` starts from -/
@@ -367,7 +405,7 @@ theorem pkFinish_fst (x : PState × WalkRes) : (pkFinish x).1 = x.1 := rfl
 
 /-- everything `Pack` leaves in its state was emitted by the walk -/
 theorem pk_pack_emits (fs : FS) (cwd : Str) (o : PackOpts) (src : Str) :
-    PackEmits fs cwd o (pkRoot fs cwd src) pkEmpty (pack fs cwd o src).1 := by
+    PackEmits (fun _ => True) fs cwd o (pkRoot fs cwd src) pkEmpty (pack fs cwd o src).1 := by
   rw [pk_pack_eq]
   split
   · exact .refl _
@@ -454,8 +492,8 @@ theorem pk_walk_grows (fs : FS) (cwd : Str) (o : PackOpts) (rules : Option (List
 def pkBytes (e : Entry) : Nat := if e.isRegular then utf8Len e.body else 0
 
 /-- every emission accounts exactly the content bytes of the entry it writes -/
-theorem PackEmit.bytes {fs : FS} {cwd : Str} {o : PackOpts} {root : Str} {e : Entry} {k : Nat}
-    (h : PackEmit fs cwd o root e k) : k = pkBytes e := by
+theorem PackEmit.bytes {G : Str → Prop} {fs : FS} {cwd : Str} {o : PackOpts} {root : Str} {e : Entry} {k : Nat}
+    (h : PackEmit G fs cwd o root e k) : k = pkBytes e := by
   cases h <;> rfl
 
 /-- the metadata describes the entry list: names in order, and the content bytes of the regular
@@ -465,8 +503,8 @@ def PackMetaOK (st : PState) : Prop :=
 
 theorem packMetaOK_empty : PackMetaOK pkEmpty := ⟨rfl, rfl⟩
 
-theorem PackEmits.metaOK {fs : FS} {cwd : Str} {o : PackOpts} {root : Str} {st st' : PState}
-    (h : PackEmits fs cwd o root st st') (hm : PackMetaOK st) : PackMetaOK st' := by
+theorem PackEmits.metaOK {G : Str → Prop} {fs : FS} {cwd : Str} {o : PackOpts} {root : Str} {st st' : PState}
+    (h : PackEmits G fs cwd o root st st') (hm : PackMetaOK st) : PackMetaOK st' := by
   obtain ⟨L, hL, e⟩ := h
   subst e
   have hk : L.map (·.2) = L.map (fun x => pkBytes x.1) :=
@@ -523,25 +561,25 @@ def PackLinksOK (fs : FS) (cwd : Str) (o : PackOpts) (root : Str) (st : PState) 
 def PackBodiesOK (fs : FS) (st : PState) : Prop :=
   ∀ e ∈ st.entries, e.isRegular = true → ∃ p perm mt, fs.lookup p = some (.file perm mt e.body)
 
-theorem PackEmit.linkOK {fs : FS} {cwd : Str} {o : PackOpts} {root : Str} {e : Entry} {k : Nat}
-    (h : PackEmit fs cwd o root e k) (hs : e.isSymlink = true) :
+theorem PackEmit.linkOK {G : Str → Prop} {fs : FS} {cwd : Str} {o : PackOpts} {root : Str} {e : Entry} {k : Nat}
+    (h : PackEmit G fs cwd o root e k) (hs : e.isSymlink = true) :
     ∃ path, fs.lstat path = .ok (.link e.link) ∧ validSymlink cwd o.allow root path e.link = true := by
   cases h with
   | dir sub perm mt => exact absurd hs (by simp [Entry.isSymlink, tDir, tSymlink])
-  | file path sub perm mt content hl => exact absurd hs (by simp [Entry.isSymlink, tReg, tSymlink])
-  | symlink path sub target hl hv => exact ⟨path, hl, hv⟩
+  | file path sub perm mt content hg hl => exact absurd hs (by simp [Entry.isSymlink, tReg, tSymlink])
+  | symlink path sub target hg hl hv => exact ⟨path, hl, hv⟩
   | deref => exact absurd hs (by simp [Entry.isSymlink, tReg, tSymlink])
 
-theorem PackEmit.bodyOK {fs : FS} {cwd : Str} {o : PackOpts} {root : Str} {e : Entry} {k : Nat}
-    (h : PackEmit fs cwd o root e k) (hr : e.isRegular = true) :
+theorem PackEmit.bodyOK {G : Str → Prop} {fs : FS} {cwd : Str} {o : PackOpts} {root : Str} {e : Entry} {k : Nat}
+    (h : PackEmit G fs cwd o root e k) (hr : e.isRegular = true) :
     ∃ p perm mt, fs.lookup p = some (.file perm mt e.body) := by
   cases h with
   | dir sub perm mt => exact absurd hr (by simp [Entry.isRegular, tDir, tReg, tRegA])
-  | file path sub perm mt content hl =>
+  | file path sub perm mt content hg hl =>
     obtain ⟨p, _, hp⟩ := pk_lstat_ok hl
     exact ⟨p, perm, mt, hp⟩
-  | symlink path sub target hl hv => exact absurd hr (by simp [Entry.isRegular, tReg, tRegA, tSymlink])
-  | deref path sub target absTarget perm mt content body hd hl hv ht hb hlen =>
+  | symlink path sub target hg hl hv => exact absurd hr (by simp [Entry.isRegular, tReg, tRegA, tSymlink])
+  | deref path sub target absTarget perm mt content body hd hg hl hv ht hb hlen =>
     obtain ⟨p, perm', mt', _, hp⟩ := pk_readFile_ok hb
     exact ⟨p, perm', mt', hp⟩
 
@@ -552,8 +590,8 @@ theorem pkExtend_entries_mem {st : PState} {L : List (Entry × Nat)} {e : Entry}
   · exact Or.inl h
   · exact Or.inr ⟨x.2, hx⟩
 
-theorem PackEmits.linksOK {fs : FS} {cwd : Str} {o : PackOpts} {root : Str} {st st' : PState}
-    (h : PackEmits fs cwd o root st st') (hm : PackLinksOK fs cwd o root st) : PackLinksOK fs cwd o root st' := by
+theorem PackEmits.linksOK {G : Str → Prop} {fs : FS} {cwd : Str} {o : PackOpts} {root : Str} {st st' : PState}
+    (h : PackEmits G fs cwd o root st st') (hm : PackLinksOK fs cwd o root st) : PackLinksOK fs cwd o root st' := by
   obtain ⟨L, hL, e⟩ := h
   subst e
   intro e he hs
@@ -561,8 +599,8 @@ theorem PackEmits.linksOK {fs : FS} {cwd : Str} {o : PackOpts} {root : Str} {st 
   · exact hm e h hs
   · exact (hL _ hk).linkOK hs
 
-theorem PackEmits.bodiesOK {fs : FS} {cwd : Str} {o : PackOpts} {root : Str} {st st' : PState}
-    (h : PackEmits fs cwd o root st st') (hm : PackBodiesOK fs st) : PackBodiesOK fs st' := by
+theorem PackEmits.bodiesOK {G : Str → Prop} {fs : FS} {cwd : Str} {o : PackOpts} {root : Str} {st st' : PState}
+    (h : PackEmits G fs cwd o root st st') (hm : PackBodiesOK fs st) : PackBodiesOK fs st' := by
   obtain ⟨L, hL, e⟩ := h
   subst e
   intro e he hs
@@ -570,17 +608,17 @@ theorem PackEmits.bodiesOK {fs : FS} {cwd : Str} {o : PackOpts} {root : Str} {st
   · exact hm e h hs
   · exact (hL _ hk).bodyOK hs
 /-- with dereferencing off, a regular entry is a regular file that `Lstat` saw at a walk path -/
-theorem PackEmit.bodyDirect {fs : FS} {cwd : Str} {o : PackOpts} {root : Str} {e : Entry} {k : Nat}
-    (h : PackEmit fs cwd o root e k) (hd : o.dereference = false) (hr : e.isRegular = true) :
+theorem PackEmit.bodyDirect {G : Str → Prop} {fs : FS} {cwd : Str} {o : PackOpts} {root : Str} {e : Entry} {k : Nat}
+    (h : PackEmit G fs cwd o root e k) (hd : o.dereference = false) (hr : e.isRegular = true) :
     ∃ path perm mt, fs.lstat path = .ok (.file perm mt e.body) := by
   cases h with
   | dir sub perm mt => exact absurd hr (by simp [Entry.isRegular, tDir, tReg, tRegA])
-  | file path sub perm mt content hl => exact ⟨path, perm, mt, hl⟩
-  | symlink path sub target hl hv => exact absurd hr (by simp [Entry.isRegular, tReg, tRegA, tSymlink])
+  | file path sub perm mt content hg hl => exact ⟨path, perm, mt, hl⟩
+  | symlink path sub target hg hl hv => exact absurd hr (by simp [Entry.isRegular, tReg, tRegA, tSymlink])
   | deref path sub target absTarget perm mt content body hd' => rw [hd] at hd'; cases hd'
 
-theorem PackEmits.bodiesDirect {fs : FS} {cwd : Str} {o : PackOpts} {root : Str} {st st' : PState}
-    (h : PackEmits fs cwd o root st st') (hd : o.dereference = false)
+theorem PackEmits.bodiesDirect {G : Str → Prop} {fs : FS} {cwd : Str} {o : PackOpts} {root : Str} {st st' : PState}
+    (h : PackEmits G fs cwd o root st st') (hd : o.dereference = false)
     (hm : ∀ e ∈ st.entries, e.isRegular = true → ∃ path perm mt, fs.lstat path = .ok (.file perm mt e.body)) :
     ∀ e ∈ st'.entries, e.isRegular = true → ∃ path perm mt, fs.lstat path = .ok (.file perm mt e.body) := by
   obtain ⟨L, hL, e⟩ := h
